@@ -473,23 +473,39 @@ def run(ctx):
     ctx.count('result_constructions', n_cons, 30)
     # decode errors are not swallowed
     n_reads = 0
+    graphs_x = {}
+    decoders = set()          # methods that hand back the ResponseMessage they decoded themselves
     for mname, fn in sorted(xm.items()):
         g = CFG(fn)
         rd = ReachingDefs(g)
+        graphs_x[mname] = (g, rd)
+        for n, c in call_nodes(g, '.read'):
+            if isinstance(c.func.value, ast.Name) and any(isinstance(v, ast.Call) and (call_name(v) or '').endswith('ResponseMessage') for v in rd.values(n, c.func.value.id)):
+                rets_ = [x for x in g.nodes if x.kind == 'stmt' and isinstance(x.stmt, ast.Return)]
+                if rets_ and all(isinstance(x.stmt.value, ast.Name) and x.stmt.value.id == c.func.value.id for x in rets_):
+                    decoders.add(mname)
+
+    def swallowing(n):
+        return any(not any(isinstance(x, ast.Raise) for s_ in h.body for x in ast.walk(s_)) for t in n.tries for h in t.handlers)
+    for mname, fn in sorted(xm.items()):
+        g, rd = graphs_x[mname]
         for n, c in call_nodes(g, '.read'):
             if not (isinstance(c.func.value, ast.Name) and any(isinstance(v, ast.Call) and (call_name(v) or '').endswith('ResponseMessage') for v in rd.values(n, c.func.value.id))):
                 continue
             n_reads += 1
             site = '%s:%s KMIPProxy.%s' % (PROXY, c.lineno, mname)
-            swallowed = False
-            for t in n.tries:
-                for h in t.handlers:
-                    if not any(isinstance(x, ast.Raise) for s in h.body for x in ast.walk(s)):
-                        swallowed = True
             kv = [k.value for k in c.keywords if k.arg == 'kmip_version'] or c.args[1:2]
-            ctx.check(not swallowed and len(kv) == 1 and is_self_attr(kv[0], 'kmip_version'), 'C19.R2', 'KMIPProxy.%s|decode-error-propagates' % mname, site,
+            ctx.check(not swallowing(n) and len(kv) == 1 and is_self_attr(kv[0], 'kmip_version'), 'C19.R2', 'KMIPProxy.%s|decode-error-propagates' % mname, site,
                       'response decoded under self.kmip_version; a decode error propagates to the caller',
                       'a response decode error is swallowed (or the response is decoded under a different version)')
+        # a response obtained through a decoding helper of the class: the helper's decode error must propagate here too
+        for n in g.nodes:
+            for c in calls_at(n):
+                if is_self_attr(c.func) and c.func.attr in decoders and mname not in decoders:
+                    n_reads += 1
+                    ctx.check(not swallowing(n), 'C19.R2', 'KMIPProxy.%s|decode-error-propagates' % mname, '%s:%s KMIPProxy.%s' % (PROXY, c.lineno, mname),
+                              'response obtained from self.%s (decodes under self.kmip_version); its decode error propagates to the caller' % c.func.attr,
+                              'a response decode error raised in self.%s is swallowed here' % c.func.attr)
     ctx.count('response_decode_sites', n_reads, 8)
 
     # ---------------- R3 framing
